@@ -45,7 +45,7 @@ def _contracts():
 
 
 def _worker(job):
-    name, src, timeout_ms = job
+    name, src, timeout_ms = job[:3]
     sys.setrecursionlimit(10000)
     t0 = time.time()
     try:
@@ -58,6 +58,7 @@ def _worker(job):
             hooks = getattr(contracts_container, "LOOP_HOOKS", {})
         except ImportError:
             pass
+        verify.PORTFOLIO = (7, 23) if job[2] >= 60000 and len(job) > 3 and job[3] == "retry" else ()
         res, und, st = verify.explore(t, src, _contracts(), hooks, timeout_ms=timeout_ms)
         sh = verify.source_hash(src, t.qualname.split("+")[0]) if not t.qualname.startswith("spec:") else None
         return dict(task=name, qualname=t.qualname, kind=t.kind, results=res, undecided=und, stats=st, source=sh, crash=None, wall=time.time() - t0)
@@ -91,13 +92,13 @@ def property_config(pid, tasks):
     failure only degrades a clause to 'bounded'; harness = bounded suites on the real code"""
     P = {}
     P["C01"] = dict(decisive=select(tasks, ("RT.",), props=["C01"]), chain=select(tasks, ("W.", "R3.")),
-                    harness=dict(checks=["roundtrip"], kinds=["RT.write", "RT.decode", "RT.content", "RT.reencode"]))
+                    harness=dict(checks=["roundtrip", "history"], kinds=["RT.write", "RT.decode", "RT.content", "RT.reencode"]))
     P["C02"] = dict(decisive=select(tasks, ("SW.", "RT."), props=["C02"]), chain=[],
-                    harness=dict(checks=["roundtrip"], kinds=["RT.size", "RT.consumed"], capture=["CAP.consumed", "CAP.size", "CAP.decode"]))
+                    harness=dict(checks=["roundtrip", "history"], kinds=["RT.size", "RT.consumed"], capture=["CAP.consumed", "CAP.size", "CAP.decode"]))
     P["C05"] = dict(decisive=select(tasks, ("SEG.",) + tuple(f"RT.{t}" for t in TRACKS) + tuple(f"W.{t}" for t in TRACKS) + tuple(f"B.{t}" for t in TRACKS)),
-                    chain=[], harness=dict(checks=["gaps"], kinds=["C05"], layouts=list(TRACKS)))
+                    chain=[], harness=dict(checks=["gaps", "history"], kinds=["C05"], layouts=list(TRACKS)))
     P["C06"] = dict(decisive=select(tasks, ("W.", "B."), props=["C06"]), chain=[],
-                    harness=dict(checks=["write", "build"], kinds=["W", "B"], modes=("zero",), capture=["CAP.layout", "CAP.decode"]))
+                    harness=dict(checks=["write", "build", "history"], kinds=["W", "B"], modes=("zero",), capture=["CAP.layout", "CAP.decode"]))
     P["C12"] = dict(decisive=select(tasks, ("B.", "R3.", "C13.BTSString.read", "C13.BTSString.bread") + tuple(f"TDF.tdfTypes.{k}.pad" for k in ("i32",))),
                     chain=[], harness=dict(checks=["build"], kinds=["B", "R3", "S"], capture=["CAP.dontcare", "CAP.reencode", "CAP.decode"]))
     P["C13"] = dict(decisive=select(tasks, ("C13.",)), chain=[], harness=dict(btsstring=True))
@@ -206,7 +207,7 @@ def replay_file(pid, path, src):
     elif rec["kind"] == "capture":
         fl = capture.check_capture(os.path.dirname(src), 0)[1]
     elif rec["kind"] in ("block", "item", "track", "trackblock"):
-        fl = suites.run_recipe(rec, data["failing_input"].get("checks", ["write", "build", "roundtrip", "gaps"]))
+        fl = suites.run_recipe(rec, data["failing_input"].get("checks", ["write", "build", "roundtrip", "gaps", "history"]))
     else:
         mod = __import__(rec["module"], fromlist=["replay"])
         fl = mod.replay(rec, os.path.dirname(src))
@@ -243,9 +244,9 @@ def main(argv=None):
         return 3
     out = run_tasks(names, src, tier)
     # verdicts must not depend on machine load: tasks with a solver 'unknown' are re-run with few processes and a larger budget
-    shaky = [o["task"] for o in out if any(r["result"] == "unknown" for r in o["results"]) and not o["crash"]]
+    shaky = [o["task"] for o in out if any(r["result"] == "unknown" for r in o["results"]) and not o["crash"] and o["task"] not in canaries]
     if shaky and len(shaky) <= 6:          # many open obligations = a changed tree: the bounded suites decide, no point in retrying
-        jobs = [(n, src, 60000 if tier == "quick" else 180000) for n in shaky]
+        jobs = [(n, src, 60000 if tier == "quick" else 180000, "retry") for n in shaky]
         with mp.get_context("fork").Pool(min(4, len(jobs))) as pool:
             redo = {o["task"]: o for o in pool.map(_worker, jobs, chunksize=1)}
         out = [redo.get(o["task"], o) if o["task"] in redo and not redo[o["task"]]["crash"] else o for o in out]
@@ -257,8 +258,9 @@ def main(argv=None):
     bad_canaries = []
     for c in canaries:
         rs = by[c]["results"]
-        if not rs or all(r["result"] == "proved" for r in rs):
-            bad_canaries.append(c)          # a false contract went through: the engine proves too much
+        if (rs and all(r["result"] == "proved" for r in rs)) or (not rs and not by[c]["undecided"] and not by[c]["crash"]):
+            bad_canaries.append(c)          # a false contract went through (or produced nothing): the engine proves too much
+        # a canary left undecided because the tree is out of the engine's reach says nothing about the engine
     obligs, undecided, failing = [], [], []
     for n in cfg["decisive"]:
         o = by[n]
